@@ -9,7 +9,9 @@
 (* plus `parsed_ok` after every parse_file whose pairing completed.  The   *)
 (* stages must come in the specification's order, an error ending must     *)
 (* come from the stage that was active, and the exit status must follow    *)
-(* the ending.                                                             *)
+(* the ending.  Many runs are validated by one TLC process: each run starts *)
+(* with a `begin` event (list mode, diff on stdin, number of files parsed)  *)
+(* that re-initialises the specification's variables.                      *)
 (***************************************************************************)
 EXTENDS Blockwatch, Json, IOUtils
 
@@ -20,14 +22,17 @@ Ev == Rec[l]
 Is(e) == l <= Len(Rec) /\ Rec[l].ev = e
 Consume == l' = l + 1 /\ TLCSet(1, IF TLCGet(1) < l THEN l ELSE TLCGet(1))
 Silent == UNCHANGED l
-NParse == Cardinality({k \in 1..Len(Rec) : Rec[k].ev = "parse"})
-Last == Rec[Len(Rec)]              \* the exit event
+\* the first event is the `begin` of the first run
+TraceInit == /\ stage = "flags" /\ ending = "none" /\ listMode = Rec[1].list /\ hasDiff = Rec[1].has_diff
+             /\ toParse = Rec[1].n /\ parsed = 0 /\ diags = 0 /\ hasError = FALSE /\ exit = -1
+             /\ l = 2 /\ TLCSet(1, 1)
+\* the next run: only after the previous one has ended
+T_begin == /\ Is("begin") /\ stage = "end"
+           /\ stage' = "flags" /\ ending' = "none" /\ listMode' = Ev.list /\ hasDiff' = Ev.has_diff
+           /\ toParse' = Ev.n /\ parsed' = 0 /\ diags' = 0 /\ hasError' = FALSE /\ exit' = -1
+           /\ Consume
 
-TraceInit == /\ stage = "flags" /\ ending = "none" /\ listMode = Last.list /\ hasDiff = Last.has_diff
-             /\ toParse = NParse /\ parsed = 0 /\ diags = 0 /\ hasError = FALSE /\ exit = -1
-             /\ l = 1 /\ TLCSet(1, 0)
-
-S_FlagsOk == l <= Len(Rec) /\ Ev.ev # "exit" /\ FlagsOk /\ Silent
+S_FlagsOk == l <= Len(Rec) /\ Ev.ev \notin {"exit", "begin"} /\ FlagsOk /\ Silent
 T_diff    == Is("diff") /\ stage = "diff" /\ Consume /\ UNCHANGED vars
 S_DiffOk  == (Is("parse") \/ Is("scoped")) /\ DiffOk /\ Silent
 T_parse   == Is("parse") /\ stage = "scope" /\ toParse > 0 /\ Consume /\ UNCHANGED vars
@@ -49,7 +54,7 @@ T_exit == /\ Is("exit")
                  /\ UNCHANGED <<listMode, hasDiff, toParse, parsed, diags, hasError>>)
           /\ exit' = Ev.status
           /\ Consume
-TraceNext == S_FlagsOk \/ T_diff \/ S_DiffOk \/ T_parse \/ T_parsed \/ T_scoped \/ S_ToDetect \/ T_detect \/ T_detected
+TraceNext == T_begin \/ S_FlagsOk \/ T_diff \/ S_DiffOk \/ T_parse \/ T_parsed \/ T_scoped \/ S_ToDetect \/ T_detect \/ T_detected
              \/ T_run \/ T_report \/ T_exit
 TraceSpec == TraceInit /\ [][TraceNext]_tvars
 TraceAccepted ==
